@@ -19,7 +19,7 @@ let fmt_sink (l : z list) : string =
 let b2s b = if b then "1" else "0"
 let fmt_obs sym o =
   String.concat ";" [string_of_z (o_exit o); fmt_sink (o_stdout o); fmt_sink (o_out o); fmt_sink (o_cyborg o);
-                     fmt_sink (o_log o); b2s (o_stderr_diag o); b2s (o_log_diag o); b2s (o_recover o); sym]
+                     fmt_sink (o_log o); b2s (o_stderr_diag o); b2s (o_log_diag o); b2s (o_recover o); sym; string_of_z (o_diag_kind o)]
 (* the path exists before the run: x. (not the symlink loop xL, not the dangling symlink xK) and q. *)
 let pre (s : string) : bool =
   String.length s > 0 && (s.[0] = 'q' || (s.[0] = 'x' && s <> "xL" && s <> "xK"))
